@@ -106,6 +106,12 @@ def judge_rule(R, it, key, name, k, r, lean_ans, swf_ans):
     else:
         sep = sorted(set(msc), reverse=True)
         separated = len(sep) == 1 or (sep[0] - sep[1]) > NEAR * max(1, abs(sep[0]))
+        # exact ties between alternatives with DIFFERENT rank multisets (e.g. 1/2+1/3+1/6 = 3*(1/3)) may legitimately be
+        # separated by float rounding; only ties forced by equal rank multisets must show up as ties (oracle 1b above)
+        top_hists = set(tuple(sorted(row[j] for row in P)) for j in mw)
+        if len(top_hists) > 1:
+            separated = False
+            R.ambiguous += 1
         if any(not V.rel_close(a, b, TOL) for a, b in zip(msc, sc)) or (separated and [w + fixer for w in mw] != r["winners"]):
             R.corr_break("harmonic: scores within 1e-12 of the exact model, winners equal when the top is separated", f"{ENTRY}.harmonic",
                          {"P": P}, r, lean_ans, cfg)
